@@ -117,7 +117,9 @@ Section Transformers.
   Proof.
     intros m cmd. unfold handle_auth_data_k.
     destruct m; destruct cmd as [req resp| | |d|e| |mm|g|]; try apply unsupported_sim.
-    - destruct d; [apply check_external_sim | apply auth_ok_sim].
+    - destruct d; [apply check_external_sim|].
+      assert (Hu : s_client_uid s1 = s_client_uid s2) by (unfold sview in Hv; congruence).
+      rewrite Hu. destruct (s_client_uid s2); [apply auth_ok_sim | apply rejected_sim].
     - apply auth_ok_sim.
   Qed.
 
